@@ -77,7 +77,7 @@ func dumpC16(out map[string]any) {
 
 // ---------- a small DER encoder of our own ----------
 
-func derLen(n int) []byte {
+func c16_derLen(n int) []byte {
 	if n < 128 {
 		return []byte{byte(n)}
 	}
@@ -93,7 +93,7 @@ func tlv(tag byte, parts ...[]byte) []byte {
 	for _, p := range parts {
 		c = append(c, p...)
 	}
-	out := append([]byte{tag}, derLen(len(c))...)
+	out := append([]byte{tag}, c16_derLen(len(c))...)
 	return append(out, c...)
 }
 
